@@ -160,25 +160,28 @@ class BaseDOELibrary(BaseDriverLibrary, Serializable):
         integer_normalization_enabled = self.__enable_integer_variables_normalization(
             design_space
         )
-        self.__check_unnormalization_capability(design_space)
+        try:
+            self.__check_unnormalization_capability(design_space)
 
-        # Filter settings to get only the ones of the global optimizer
-        settings = self._filter_settings(settings, BaseDOESettings)
+            # Filter settings to get only the ones of the global optimizer
+            settings = self._filter_settings(settings, BaseDOESettings)
 
-        self.unit_samples = self._generate_unit_samples(design_space, **settings)
-        LOGGER.debug(
-            (
-                "The DOE algorithm %s of %s has generated %s samples "
-                "in the input unit hypercube of dimension %s."
-            ),
-            self._algo_name,
-            self.__class__.__name__,
-            *self.unit_samples.shape,
-        )
-        self.samples = self.__convert_unit_samples_to_samples(problem)
-        self.__reset_integer_variables_normalization(
-            design_space, integer_normalization_enabled
-        )
+            self.unit_samples = self._generate_unit_samples(design_space, **settings)
+            LOGGER.debug(
+                (
+                    "The DOE algorithm %s of %s has generated %s samples "
+                    "in the input unit hypercube of dimension %s."
+                ),
+                self._algo_name,
+                self.__class__.__name__,
+                *self.unit_samples.shape,
+            )
+            self.samples = self.__convert_unit_samples_to_samples(problem)
+        finally:
+            self.__reset_integer_variables_normalization(
+                design_space, integer_normalization_enabled
+            )
+
         self._init_iter_observer(problem, len(self.unit_samples))
 
     def __convert_unit_samples_to_samples(
@@ -405,31 +408,36 @@ class BaseDOELibrary(BaseDriverLibrary, Serializable):
             whose rows are the samples and columns the variables.
         """
         design_space = self.__get_design_space(variables_space)
-        if not unit_sampling:
-            if isinstance(design_space, DesignSpace):
-                integer_normalization_enabled = (
-                    self.__enable_integer_variables_normalization(design_space)
-                )
-
-            self.__check_unnormalization_capability(design_space)
-
-        # Validate and filter the settings
-        settings = self._filter_settings(
-            settings=self._validate_settings(settings_model=settings_model, **settings),
-            model_to_exclude=BaseDOESettings,
-        )
-
-        unit_samples = self._generate_unit_samples(design_space, **settings)
-        if unit_sampling:
-            return unit_samples
-
-        samples = design_space.untransform_vect(unit_samples, no_check=True)
-        if isinstance(design_space, DesignSpace):
-            self.__reset_integer_variables_normalization(
-                design_space, integer_normalization_enabled
+        integer_normalization_enabled = False
+        if not unit_sampling and isinstance(design_space, DesignSpace):
+            integer_normalization_enabled = (
+                self.__enable_integer_variables_normalization(design_space)
             )
 
-        return samples
+        try:
+            if not unit_sampling:
+                self.__check_unnormalization_capability(design_space)
+
+            # Validate and filter the settings
+            settings = self._filter_settings(
+                settings=self._validate_settings(
+                    settings_model=settings_model, **settings
+                ),
+                model_to_exclude=BaseDOESettings,
+            )
+
+            unit_samples = self._generate_unit_samples(design_space, **settings)
+            if unit_sampling:
+                return unit_samples
+
+            return design_space.untransform_vect(unit_samples, no_check=True)
+        finally:
+            # Restore the integer normalization whatever the outcome,
+            # e.g. when the settings are invalid or the design space is unbounded.
+            if integer_normalization_enabled:
+                self.__reset_integer_variables_normalization(
+                    design_space, integer_normalization_enabled
+                )
 
     @singledispatchmethod
     def __get_design_space(self, design_space):
